@@ -2,6 +2,7 @@
 from __future__ import annotations
 
 import ast
+import re
 
 from ..ccfg import get_ccfg
 from ..cfacts import CREL, get_cfacts
@@ -355,6 +356,55 @@ def roles(ctx, res):
     res.floor(2)
 
 
+
+def _pattern_sources(repo, mod, expr, namep):
+    """Where a detach/restore pattern expression comes from: the expression
+    plus the bodies of the self-helpers it calls (two levels).  Returns
+    (uses_class_table, callee names, unguarded class-table subscripts)."""
+    nodes = [expr]
+    seen = set()
+    work = [expr]
+    for _ in range(3):
+        nxt = []
+        for e in work:
+            for c in ast.walk(e):
+                if isinstance(c, ast.Call) and isinstance(c.func, ast.Attribute) \
+                        and isinstance(c.func.value, ast.Name) \
+                        and c.func.value.id == "self" \
+                        and c.func.attr not in seen:
+                    seen.add(c.func.attr)
+                    try:
+                        h = repo.func(HT, "HasTraits." + c.func.attr)
+                    except Exception:
+                        continue
+                    nodes.append(h)
+                    nxt.append(h)
+        work = nxt
+    table = False
+    callees = set()
+    unguarded = []
+    for root in nodes:
+        guarded_ids = set()
+        for n in ast.walk(root):
+            if isinstance(n, (ast.If, ast.IfExp)) \
+                    and "__listener_traits__" in norm(n.test) \
+                    and re.search(r"\bin\b", norm(n.test)):
+                sub = n.body if isinstance(n.body, list) else [n.body]
+                for b in sub:
+                    guarded_ids.update(id(x) for x in ast.walk(b))
+        for n in ast.walk(root):
+            if isinstance(n, ast.Attribute) and n.attr == "__listener_traits__":
+                table = True
+            if isinstance(n, ast.Call):
+                callees.add(norm(n.func).split(".")[-1])
+            if isinstance(n, ast.Subscript) \
+                    and isinstance(n.value, ast.Attribute) \
+                    and n.value.attr == "__listener_traits__" \
+                    and isinstance(n.ctx, ast.Load) \
+                    and id(n) not in guarded_ids:
+                unguarded.append(mod.loc(n) if hasattr(n, "lineno") else "")
+    return table, callees, unguarded
+
 @rule("C11.listener-pairing", ["C11"],
       "the forwarding listener of a deferred trait is attached and detached "
       "under the same pattern and tracked in the per-object table")
@@ -411,14 +461,15 @@ def listener_pairing(ctx, res):
                             "table local not found")
     unregs = [c for c in ast.walk(blk) if is_self_call(c, "on_trait_change")]
     ok = False
+    pattern_exprs = []
     if len(unregs) == 1:
         c = unregs[0]
         kws = {k.arg: norm(k.value) for k in c.keywords}
         ok = (norm(c.args[0]) == f"{tbl}[{rps[1]}]"
               and norm(c.args[1]).startswith(
                   f"self._trait_delegate_name({rps[1]}, ")
-              and "__listener_traits__" in norm(c.args[1])
               and kws.get("remove") == "True")
+        pattern_exprs.append(c.args[1])
     res.oblige(ok, "remove:unregister", mod.loc(rem),
                "detaching must call on_trait_change(<recorded handler>, "
                "self._trait_delegate_name(name, <class pattern>), "
@@ -436,11 +487,41 @@ def listener_pairing(ctx, res):
     guards = [norm(i.test) for i in ast.walk(ast.Module(tail, []))
               if isinstance(i, ast.If)]
     guards += [norm(i.test) for i in rm_if[0].orelse if isinstance(i, ast.If)]
-    res.oblige(len(re_init) == 1 and f"{rps[1]} not in {tbl}" in guards
-               and "__listener_traits__" in norm(re_init[0].args[2]),
+    res.oblige(len(re_init) == 1 and f"{rps[1]} not in {tbl}" in guards,
                "remove:restore", mod.loc(rem),
                "deleting the local value must re-attach the listener (only "
-               "when absent) with the class-level pattern")
+               "when absent)")
+    if len(re_init) == 1:
+        pattern_exprs.append(re_init[0].args[2])
+    # the pattern used to detach / restore agrees with the two attach sites:
+    # the class-level table entry (metaclass) and, for a delegate added with
+    # add_trait, whatever _trait_added_changed computes - and looking the
+    # name up in the class-level table cannot raise for the latter
+    added = repo.func(HT, "HasTraits._trait_added_changed")
+    inst_calls = [c for c in ast.walk(added)
+                  if is_self_call(c, "_init_trait_delegate_listener")]
+    if len(inst_calls) != 1:
+        raise AnalysisError("_trait_added_changed: attach site not found")
+    inst_pat = inst_calls[0].args[2]
+    inst_fn = norm(inst_pat.func).split(".")[-1] \
+        if isinstance(inst_pat, ast.Call) else None
+    for i, pe in enumerate(pattern_exprs):
+        table, callees, unguarded = _pattern_sources(repo, mod, pe, rps[1])
+        which = "unregister" if i == 0 and len(pattern_exprs) == 2 or \
+            (len(pattern_exprs) == 1 and not re_init) else "restore"
+        res.oblige(table, f"remove:{which}:class-pattern", mod.loc(rem),
+                   "the pattern does not come from the class-level listener "
+                   "table: a different pattern than the one attached")
+        res.oblige(not unguarded, f"remove:{which}:instance-delegate",
+                   unguarded[0] if unguarded else mod.loc(rem),
+                   "the class-level table is subscripted without a membership "
+                   "test: KeyError for a delegate added with add_trait")
+        if inst_fn is not None:
+            res.oblige(inst_fn in callees,
+                       f"remove:{which}:instance-pattern", mod.loc(rem),
+                       f"a delegate added with add_trait is attached under "
+                       f"{inst_fn}(...) but this site never computes that "
+                       f"pattern")
     # the class-level pattern comes from get_delegate_pattern
     uses = [c for c in ast.walk(repo.module(HT).tree) if isinstance(c, ast.Call)
             and norm(c.func) == "get_delegate_pattern"]
